@@ -21,7 +21,9 @@ CLAIM = dict(
          "i^n prod (R+t_b-t_a)_alpha preserves that relation and the k-space matrix and all its derivative components are "
          "Hermitian; hermitize is idempotent and fixes Hermitian input; for EVERY history of set_fft_R_to_k calls on one "
          "Rvectors object (grids with any NK/fftlib/dK and k lists in any order) R_to_k returns what the CURRENT "
-         "configuration alone prescribes (state machine with the stale expdK of the k-list branch modelled); _rotate "
+         "configuration alone prescribes (state machine with the stale expdK of the k-list branch modelled); the hermitian/antihermitean "
+         "option acts on the two band indices in every k layout (flat, reshapeKline=False grid, k list), is a no-op on "
+         "Hermitian data, and differs from exchanging grid axes (proved example); _rotate "
          "(U^dagger X U) maps Hermitian matrices to Hermitian matrices for any U, so Xbar(name, der) is Hermitian component by "
          "component.  Model tied to the code by exact comparison of box "
          "contents, cRvec_shifted, and R_to_k(der=0..3) values for fftw/numpy/slow/k-list on Gaussian-integer data, and of call sequences on one object.",
@@ -41,7 +43,8 @@ TRUSTED = [
 ]
 RULE = ("R sets of 1-30 vectors within |R_i|<=4 (symmetric under inversion for the oracle), 1-4 Wannier functions with "
         "centres inside/outside the home cell, lattices cubic..triclinic, FFT boxes in [1,6]^3 both >= and < the recommended "
-        "size and non-cubic, derivative orders 0-3, dK anywhere in the cell; histories of 3-10 set_fft_R_to_k calls on one Rvectors object "
+        "size and non-cubic, derivative orders 0-3, dK anywhere in the cell; the full signature of FFT_R_to_k.__call__ (hermitian / antihermitean / "
+        "both x reshapeKline True/False x back ends x cubic, N2==N3!=N1 and non-cubic boxes, 0-2 Cartesian indices); histories of 3-10 set_fft_R_to_k calls on one Rvectors object "
         "(different dK, NKFFT, fftlib, k lists, returning to earlier configurations); non-trivial = at least two R vectors collide on "
         "the box (corr box/rtok) or der >= 1 or box smaller than recommended (oracle); distinct = distinct (R set, box, dK, centres)")
 
@@ -105,7 +108,7 @@ def exact_rows(A):
 
 def corr(ctx):
     from .c01 import run_batched
-    run_batched(ctx, [corr_box, corr_crs, corr_rtok, corr_seq, corr_rotate])
+    run_batched(ctx, [corr_box, corr_crs, corr_rtok, corr_seq, corr_rotate, corr_callopt])
 
 
 def corr_box(ctx):
@@ -338,6 +341,47 @@ def corr_rotate(ctx):
                          dict(line=l[:300], case=c))
 
 
+def corr_callopt(ctx):
+    """FFT_R_to_k.__call__ over its full signature: hermitian / antihermitean flags x reshapeKline in {True, False} x
+    fftw / numpy / slow, boxes dividing 4 (cubic, N2 == N3 != N1, non-cubic), Gaussian-integer NON-Hermitian data:
+    the element (0,1) at every grid point vs the model (the option acts on the band indices in every k layout)"""
+    from wannierberri.fourier.fft import FFT_R_to_k
+    rng = ctx.rng
+    lines, expect, cases = [], [], []
+    for it in range(ctx.n(16, 120)):
+        iR = gen_iRvec(rng, nmax=8, maxR=3)
+        N = rng.choice([[2, 2, 2], [4, 2, 2], [1, 2, 2], [2, 4, 4], [2, 1, 4], [4, 2, 1], [1, 1, 1], [2, 4, 2]])
+        X = gint(rng, (len(iR), 2, 2))
+        flag = rng.choice([0, 1, 2])
+        flat = rng.random() < 0.5
+        lib = rng.choice(["fftw", "numpy", "slow"])
+        case = dict(iRvec=iR, NKFFT=N, X=X, hermitian=(flag == 1), antihermitean=(flag == 2), reshapeKline=flat, fftlib=lib)
+        with ctx.attempt("FFT_R_to_k.__call__ options", case):
+            with quiet():
+                fft = FFT_R_to_k(iR, NKFFT=N, num_wann=2, fftlib=lib)
+                res = np.array(fft(X.copy(), hermitian=(flag == 1), antihermitean=(flag == 2), reshapeKline=flat))
+            want_shape = (int(np.prod(N)), 2, 2) if flat else tuple(N) + (2, 2)
+            if res.shape != want_shape:
+                ctx.fail(f"FFT_R_to_k(reshapeKline={flat}) returns shape {res.shape}, expected {want_shape}", case)
+                continue
+            pts = list(itertools.product(range(N[0]), range(N[1]), range(N[2])))
+            # the layout is made explicit here: flat index = C order of (k1,k2,k3); grid layout is indexed by the triple
+            vals = np.array([res[i, 0, 1] if flat else res[m[0], m[1], m[2], 0, 1] for i, m in enumerate(pts)])
+            lines.append(f"callopt {ints(N)} {flag} {intss(iR)} {gstr(X[:, 0, 1])} {gstr(X[:, 1, 0])}")
+            expect.append(vals)
+            cases.append(case)
+            ctx.count(f"corr.callopt.flag={flag}.flat={int(flat)}")
+            ctx.count("corr.callopt.N2==N3" if N[1] == N[2] and N[1] > 1 else "corr.callopt.N2!=N3_or_1")
+    out = yield lines
+    for l, o, e, c in zip(lines, out, expect, cases):
+        ctx.case(signature=l, nontrivial=True)
+        m = cplx(o)
+        if m.shape != e.shape or np.abs(m - e).max() > 1e-12 * (1 + np.abs(m).max()):
+            ctx.mismatch(f"FFT_R_to_k.__call__(hermitian={c['hermitian']}, antihermitean={c['antihermitean']}, "
+                         f"reshapeKline={c['reshapeKline']}, fftlib={c['fftlib']}, NKFFT={c['NKFFT']}) differs from the model by "
+                         f"{np.abs(m - e).max() if m.shape == e.shape else 'shape'}", dict(line=l[:300], case=c))
+
+
 # ------------------------------------------------------------------------------------------------
 # helpers shared with C33: Hermitian random systems with an inversion-symmetric R set
 
@@ -394,6 +438,80 @@ def herm_err(A):
 def oracle(ctx, scale):
     oracle_backends(ctx, scale)
     oracle_histories(ctx, scale)
+    oracle_call_options(ctx, scale)
+
+
+def oracle_call_options(ctx, scale):
+    """the full signature of FFT_R_to_k.__call__: reshapeKline in {True, False} x (none | hermitian | antihermitean | both)
+    x back ends (fftw, numpy, slow, k list) x cubic and non-cubic NKFFT (incl. N2 == N3 != N1) x data with 0-2 Cartesian
+    indices, Hermitian and non-Hermitian; every result is compared with the explicit sum over R laid out accordingly, and
+    hermitian=True must be a no-op (antihermitean=True must give 0) on Hermitian data"""
+    from wannierberri.fourier.fft import FFT_R_to_k
+    rng = ctx.rng
+    for it in range(ctx.n(40, 400) * scale):
+        nps = np.random.RandomState(rng.getrandbits(31))
+        iR = gen_iRvec(rng, nmax=rng.choice([1, 4, 9, 20]), maxR=rng.choice([1, 2, 4]), symmetric=True)
+        nw = rng.randint(1, 3)
+        ncart = rng.choice([0, 0, 1, 2])
+        shape = (len(iR), nw, nw) + (3,) * ncart
+        X = nps.normal(size=shape) + 1j * nps.normal(size=shape)
+        hermdata = rng.random() < 0.6
+        if hermdata:
+            idx = {tuple(R): i for i, R in enumerate(iR)}
+            mR = np.array([idx[tuple(-R)] for R in iR])
+            X = 0.5 * (X + X[mR].swapaxes(1, 2).conj())
+        N = rng.choice([[3, 3, 3], [2, 3, 3], [4, 2, 2], [1, 5, 5], [2, 3, 4], [5, 1, 2], [1, 1, 1], [3, 2, 2], [2, 2, 5]])
+        pts = np.array(list(itertools.product(range(N[0]), range(N[1]), range(N[2]))))
+        kpts = pts / np.array(N)[None, :]
+        ref = np.tensordot(np.exp(2j * np.pi * (kpts @ iR.T)), X, axes=(1, 0))       # (nk, nw, nw, ...)
+        case = dict(iRvec=iR, NKFFT=N, num_wann=nw, ncart=ncart, hermitian_data=hermdata,
+                    note="X = (hermitised) complex normal data, seeded")
+        ctx.case(signature=("opt", iR.tobytes(), tuple(N), nw, ncart, hermdata), nontrivial=True)
+        for lib in ("fftw", "numpy", "slow", "klist"):
+            for flat in (True, False):
+                for flag in ("none", "hermitian", "antihermitean", "both"):
+                    if rng.random() < 0.45:
+                        continue
+                    kw = dict(hermitian=flag in ("hermitian", "both"), antihermitean=flag in ("antihermitean", "both"),
+                              reshapeKline=flat)
+                    c2 = dict(case, fftlib=lib, **kw)
+                    ctx.count(f"oracle.callopt.{flag}.flat={int(flat)}")
+                    try:
+                        with quiet():
+                            fft = FFT_R_to_k(iR, k_list=kpts, num_wann=nw, fftlib="slow") if lib == "klist" else \
+                                FFT_R_to_k(iR, NKFFT=N, num_wann=nw, fftlib=lib)
+                            res = np.array(fft(X.copy(), **kw)).copy()
+                    except ValueError as e:
+                        if flag != "both":
+                            ctx.fail(f"FFT_R_to_k.__call__ raised ValueError: {str(e)[:120]}", c2)
+                        continue
+                    except Exception as e:  # noqa
+                        ctx.fail(f"FFT_R_to_k.__call__ raised {type(e).__name__}: {str(e)[:160]}", c2)
+                        continue
+                    if flag == "both":
+                        ctx.fail("hermitian=True together with antihermitean=True did not raise", c2)
+                        continue
+                    want = ref
+                    if flag == "hermitian":
+                        want = 0.5 * (ref + ref.swapaxes(1, 2).conj())
+                    elif flag == "antihermitean":
+                        want = 0.5 * (ref - ref.swapaxes(1, 2).conj())
+                    if not flat and lib != "klist":
+                        want = want.reshape(tuple(N) + want.shape[1:])
+                    tol = 1e-11 * (1 + np.abs(ref).max()) * max(1.0, len(iR) / 10)
+                    if res.shape != want.shape:
+                        ctx.fail(f"FFT_R_to_k.__call__ returns shape {res.shape}, expected {want.shape}", c2)
+                        continue
+                    err = np.abs(res - want).max()
+                    if err > tol:
+                        ctx.fail(f"FFT_R_to_k.__call__(fftlib={lib}, hermitian={kw['hermitian']}, antihermitean={kw['antihermitean']}, "
+                                 f"reshapeKline={flat}, NKFFT={N}) differs from the explicit sum over R (laid out accordingly) by "
+                                 f"{err:.3e} (allowed {tol:.1e})", dict(c2, err=err))
+                    if hermdata:
+                        plain = ref.reshape(want.shape) if flag != "antihermitean" else np.zeros_like(want)
+                        if flag != "none" and np.abs(res - plain).max() > tol:
+                            ctx.fail(f"on Hermitian data {flag}=True must be a no-op (hermitian) / give zero (antihermitean): "
+                                     f"fftlib={lib}, reshapeKline={flat}, NKFFT={N}: off by {np.abs(res - plain).max():.3e}", c2)
 
 
 def oracle_histories(ctx, scale):
